@@ -45,3 +45,32 @@ package ontology
 //@   atcall WhereRaw forall r Relationship :: wfRel(r) ==> (strings.HasSuffix(r.GorpKey(), string(suffix)) == (r.To == to && r.Type == relationshipType))
 //@   modifies *
 
+
+//@ # ---------------------------------------------------------------- C16: relationship definition over a ghost graph
+//@ # the stored graph as seen by the writer's transaction: resources, edges, and reachability
+//@ # through one or more edges (the contract of retrieveDescendants is its meaning)
+//@ ghost SpecNodes map[ID]bool
+//@ ghost SpecEdges map[Relationship]bool
+//@ spec func SpecReach(a ID, b ID) bool
+//@ spec func specRev(r Relationship) Relationship = Relationship{From: r.To, To: r.From, Type: r.Type}
+
+//@ # table lookups (gorp retrieves by exact key), assumed
+//@ trusted func (d dagWriter) checkRelationshipExists(ctx context.Context, rel Relationship) (exists bool, err error)
+//@   ensures err == nil ==> exists == SpecEdges[rel] && !SpecEdges[specRev(rel)]
+//@   ensures SpecEdges[specRev(rel)] ==> err != nil
+//@   modifies nothing
+//@ trusted func (d dagWriter) validateResourcesExist(ctx context.Context, ids ...ID) (err error)
+//@   ensures err == nil ==> (forall i int :: 0 <= i && i < len(ids) ==> SpecNodes[ids[i]])
+//@   modifies nothing
+//@ # the descendant walk returns exactly the resources reachable through >= 1 edge (given exact
+//@ # outgoing-edge selection, which is the atcall obligation of retrieveOutgoingRelationships)
+//@ trusted func (d dagWriter) retrieveDescendants(ctx context.Context, id ID) (m map[ID]Resource, err error)
+//@   ensures err == nil ==> (forall x ID :: __in(m, x) == SpecReach(id, x))
+//@   modifies nothing
+
+//@ # from the property: the new edge is created only when it does not exist yet, both resources
+//@ # exist, and it closes no cycle - a new edge from->to closes a cycle iff from == to or from is
+//@ # reachable from to
+//@ func (d dagWriter) DefineRelationship(ctx context.Context, from ID, t RelationshipType, to ID) (err error)
+//@   atcall NewCreate !SpecEdges[Relationship{From: from, To: to, Type: t}] && SpecNodes[from] && SpecNodes[to] && from != to && !SpecReach(to, from)
+//@   modifies *
